@@ -31,6 +31,9 @@ def run(rep, tier):
     # the initialiser of a str / bool variable is read by _literal: the token's own text, quotes removed, nothing decoded or rewritten
     from . import c02
     common.guarded(rep, "C02.7", c02.c02_7, rep, ix, M)
+    # a loop variable is a temporary: it is gone from the table when its loop ends (a later declaration of that name is a variable like any other)
+    from . import c06
+    common.guarded(rep, "C06.5", c06.c06_5, rep, ix, M.G)
     from . import c03
     cc = ContextClasses(M.src["py_parser"])
     br = common.guarded(rep, "C03.2", c03.c03_2, rep, ix, M)
